@@ -1,6 +1,7 @@
 package main
 
 import (
+	"encoding/binary"
 	"bufio"
 	"bytes"
 	"fmt"
@@ -415,6 +416,73 @@ func checkC18(r *mon.Run) {
 				return
 			}
 			r.Count("device_paths_via_"+rk, 1)
+		}
+		// readers that are not at their origin when the path starts (the path is one field of a larger record)
+		prefix := make([]byte, 1+rng.Intn(40))
+		rng.Read(prefix)
+		whole := append(append(append([]byte(nil), prefix...), pathBytes...), 0xEE, 0xEE, 0xEE)
+		for _, rk := range []string{"bytes.Reader@offset", "SectionReader@offset", "bufio@offset"} {
+			var src io.Reader
+			switch rk {
+			case "bytes.Reader@offset":
+				br := bytes.NewReader(whole)
+				io.CopyN(io.Discard, br, int64(len(prefix)))
+				src = br
+			case "SectionReader@offset":
+				src = io.NewSectionReader(bytes.NewReader(whole), int64(len(prefix)), int64(len(pathBytes)+3))
+			case "bufio@offset":
+				bf := bufio.NewReader(bytes.NewReader(whole))
+				io.CopyN(io.Discard, bf, int64(len(prefix)))
+				src = bf
+			}
+			var nodes []device.EFIDevicePaths
+			var perr error
+			if p := tryP(func() { nodes, perr = device.ParseDevicePath(src) }); p != "" || perr != nil {
+				r.Violation("C18|devicepath|rejected-via-"+rk, fmt.Sprintf("ParseDevicePath through a %s (path begins %d bytes into the source) rejects a well-formed path (%v): %v %s", rk, len(prefix), kinds, perr, p), replay)
+				return
+			}
+			lo2 := device.EFILoadOption{Attributes: lo.Attributes, FilePathListLength: lo.FilePathListLength, Description: lo.Description, FilePath: nodes}
+			if k, msg := compareLoadOption(&lo2, o, pl); k != "" {
+				r.Violation("C18|devicepath|"+k+"-via-"+rk, msg+fmt.Sprintf(" (path begins %d bytes into the source)", len(prefix)), replay)
+				return
+			}
+			r.Count("device_paths_via_"+rk, 1)
+		}
+		// each node handed to the exported per-type parser directly, the rest of the path still behind it in the reader
+		off := 0
+		for ni, n := range o.Nodes {
+			enc := n.Encode()
+			src := bytes.NewReader(pathBytes[off:])
+			off += len(enc)
+			var hdr device.EFIDevicePath
+			var d device.EFIDevicePaths
+			var derr error
+			if p := tryP(func() {
+				if derr = binary.Read(src, binary.LittleEndian, &hdr); derr != nil {
+					return
+				}
+				switch hdr.Type {
+				case device.Hardware:
+					d = device.ParseHardwareDevicePath(src, &hdr)
+				case device.ACPI:
+					d = device.ParseACPIDevicePath(src, &hdr)
+				case device.MediaDevicePath:
+					d, derr = device.ParseMediaDevicePath(src, &hdr)
+				case device.MessagingDevicePath:
+					d = device.ParseMessagingDevicePath(src, &hdr)
+				}
+			}); p != "" || derr != nil || d == nil {
+				r.Violation("C18|node-parser|rejected-"+n.Kind, fmt.Sprintf("the %s node parser called directly (node %d of %v, rest of the path behind it) failed: %v %s", n.Kind, ni, kinds, derr, p), replay)
+				return
+			}
+			one := device.EFILoadOption{Attributes: lo.Attributes, FilePathListLength: lo.FilePathListLength, Description: lo.Description, FilePath: []device.EFIDevicePaths{d}}
+			oo := o
+			oo.Nodes = []refdev.Node{n}
+			if k, msg := compareLoadOption(&one, oo, pl); k != "" {
+				r.Violation("C18|node-parser|"+k, "node parser called directly with the rest of the path behind the node: "+msg, replay)
+				return
+			}
+			r.Count("nodes_parsed_directly", 1)
 		}
 		r.Count("load_options_decoded", 1)
 		for _, k := range kinds {
